@@ -142,6 +142,9 @@ int lrtr_ipv6_str_to_addr(const char *a, struct lrtr_ipv6_addr *ip)
 			words[i] = words[i - j];
 		for (; i >= hfil; i--)
 			words[i] = 0;
+	} else if (i != 8) {
+		/* without :: all eight groups must be present */
+		return -1;
 	}
 
 	/* Convert the address to lrtr_ip_addr format */
